@@ -397,6 +397,40 @@ pub fn run(a: &Args) {
             }
         }
     }
+    // IS_CIM (hand-written codec): Size 8, Type 64, ReqI, UCID, Mode, SubMode, SelType, Sp3 - the CIM_ mode numbers, the NRM_ / GRG_ /
+    // FVM_ sub-mode numbers of the modes that have one, SelType in its own byte (only meaningful in CIM_SHIFTU), Sp3 zero
+    if let (Some(cim), Some(nrm), Some(grg), Some(fvm)) = (spec.tables.get("CIM"), spec.tables.get("NRM"), spec.tables.get("GRG"), spec.tables.get("FVM")) {
+        for m in cim.entries.iter().filter(|e| required(e)) {
+            let subs: Vec<Option<(&Table, &Entry)>> = match m.name.as_str() { "NORMAL" => nrm.entries.iter().map(|e| Some((nrm, e))).collect(), "GARAGE" => grg.entries.iter().map(|e| Some((grg, e))).collect(), "SHIFTU" => fvm.entries.iter().map(|e| Some((fvm, e))).collect(), _ => vec![None] };
+            for sub in subs { for sel in if m.name == "SHIFTU" { vec![0u8, 1, 129, 252, 255] } else { vec![0u8] } { for compressed in [true, false] {
+                let sv = sub.map(|(_, e)| e.val as u8).unwrap_or(0);
+                let f = vec![if compressed { 2u8 } else { 8 }, 64, 3, 5, m.val as u8, sv, sel, 0];
+                st.evaluations += 1; st.bump("vectors:IS_CIM mode / sub-mode / selected type");
+                let id = format!("{} {}", mode_tag(compressed), hex(&f));
+                let what = format!("CIM_{}{} SelType {sel}", m.name, sub.map(|(t, e)| format!(" {}{}", t.prefix, e.name)).unwrap_or_default());
+                match decode_buf(compressed, &f) {
+                    Dec::Got(p, _) => {
+                        let dbg = format!("{:?}", p);
+                        // Cim(Cim { reqi: RequestId(3), ucid: ConnectionId(5), mode: ShiftU { submode: Buttons, seltype: 129 } })
+                        if !dbg.contains("RequestId(3)") || !dbg.contains("ConnectionId(5)") { st.fail(format!("[C02 IS_CIM] {what}: ReqI 3 / UCID 5 are read back as `{}`", dbg.chars().take(90).collect::<String>()), id.clone()); }
+                        let inner = dbg.splitn(2, " mode: ").nth(1).unwrap_or("").to_string();
+                        let variant: String = inner.chars().take_while(|c| c.is_ascii_alphanumeric()).collect();
+                        obs.checked += 1;
+                        if !name_matches(cim, m, &variant) { st.fail(format!("[C02 IS_CIM] {what}: mode {} is read back as `{variant}`", m.val), id.clone()); }
+                        if let Some((t, e)) = sub {
+                            let rest = &inner[variant.len()..];
+                            let subname: String = rest.trim_start_matches(|c: char| !c.is_ascii_alphanumeric()).trim_start_matches("submode: ").chars().take_while(|c| c.is_ascii_alphanumeric()).collect();
+                            obs.checked += 1;
+                            if !name_matches(t, e, &subname) { st.fail(format!("[C02 IS_CIM] {what}: sub-mode {} is read back as `{subname}`", e.val), id.clone()); }
+                        }
+                        if m.name == "SHIFTU" { obs.checked += 1; if !inner.contains(&format!("seltype: {sel} ")) && !inner.contains(&format!("seltype: {sel}}}")) && !inner.contains(&format!("seltype: {sel},")) { st.fail(format!("[C02 IS_CIM] {what}: byte 6 (SelType) = {sel} is read back as `{}`", inner.chars().take(70).collect::<String>()), id.clone()); } }
+                        match encode_p(compressed, &p) { Enc::Ok(e) if e == f => {}, Enc::Ok(e) => st.fail(format!("[C02 IS_CIM] {what}: re-encodes as {}", hex(&e)), id.clone()), _ => st.fail(format!("[C02 IS_CIM] {what}: the decoded packet does not encode"), id.clone()) }
+                    },
+                    d => st.fail(format!("[C02 IS_CIM] {what}: decoder outcome {}", crate::wire::cls_string(&d)), id.clone()),
+                }
+            } } }
+        }
+    }
     st.add("observations:value compared through the public fields", obs.checked);
     st.add("observations:field not observable through Debug (opaque types, addresses, unnamed enumerants)", obs.unobservable);
     st.rule = "reference frames built from the dumped specification transcription by a table-driven encoder: per packet type the all-default frame, every non-spare field set to each enumerant / single flag bit and all bits / boundary integers with distinct byte patterns / texts / times, arrays of 0..max elements with element fields varied, variable texts and word arrays, both size modes; each frame must decode to its own type, show the carried value under the implementation's field name, and re-encode byte for byte; distinct = distinct reference frames".into();
